@@ -178,6 +178,16 @@ def _exc_class(name):
     if c is None:
         c = REG.get(name)
     if c is None:
+        import asyncio
+        import copy
+        import pickle
+        for mod in (pickle, copy, asyncio):
+            c = getattr(mod, name, None)
+            if isinstance(c, type) and issubclass(c, BaseException):
+                REG.add(c)
+                break
+            c = None
+    if c is None:
         raise Unsupported(f"unknown exception class {name}")
     return c
 
@@ -460,6 +470,13 @@ def b_dict(ex, args, kwargs, s):
         s.assume(z3.ForAll([j], z3.Implies(z3.And(0 <= j, j < a.len, z3.ForAll([j2], z3.Implies(z3.And(j < j2, j2 < a.len), to_v(kv.at(j2), s) != to_v(kv.at(j), s)))),
                                            valarr[to_v(kv.at(j), s)] == to_v(vv.at(j), s))))
         s.assume(*smt.heap_wellformed_ref(s.heap, d.t, "d"), n <= a.len)
+        yield s, d
+        return
+    if isinstance(a, Val) and strip_opt(a.ty)[0] == "any":
+        # dict(x) of an untyped value: modelled as a copy of a mapping (assumption, listed)
+        ex.assumptions.add("dict(x) of an untyped value: x modelled as a mapping")
+        d = alloc_dict(s, ANY, ANY)
+        copy_container(s, "d", a.t, d.t)
         yield s, d
         return
     raise Unsupported(f"dict({a!r})")
